@@ -9,6 +9,7 @@ CONSTANTS
   Disc = TRUE
   LockWrites = TRUE
   StopKA = TRUE
+  CloseAtomic = TRUE
   KeepSink = FALSE
   AllowSkip = TRUE
 CONSTRAINT HighWater
